@@ -122,7 +122,7 @@ Proof.
   cbv zeta. split; [|split; [vm_compute; reflexivity|split; [vm_compute; reflexivity|eexists; split; vm_compute; reflexivity]]].
   apply (A_tuple _ [PTuple [PInt 7; PStr [65]]] [_]); [apply TH_L4; vm_compute; reflexivity|].
   constructor; [|constructor].
-  apply (A_tuple _ [PInt 7; PStr [65]] [_; _]); [apply TH_L1; [vm_compute; reflexivity|discriminate]|].
+  apply (A_tuple _ [PInt 7; PStr [65]] [_; _]); [apply TH_L1; vm_compute; reflexivity|].
   constructor; [|constructor; [|constructor]].
   - apply (A_int_L4 _ 7%Z [x37]); [vm_compute; reflexivity|vm_compute; reflexivity].
   - apply (A_str _ [65] [x41]); [vm_compute; reflexivity|]. apply (A_bytes_L4 _ [x41]). vm_compute; reflexivity.
